@@ -172,6 +172,56 @@ def ops_unary(ir, fr, xc):
             def orc(k=k):
                 return {(s - k, v): t for (s, v), t in x_cells.items()}
             out.append((f"shift({k}) {form}", impl, orc, True))
+    # --- fill_missing: each method's formula, period by period, within the span of the series
+    if xc.n:
+        lo_, hi_ = hull(x_cells)
+        nv_ = max(xc.nvar, 1)
+
+        def fill_oracle(method):
+            c = dict(x_cells)
+            for v in range(nv_):
+                obs = sorted(s for (s, vv) in x_cells if vv == v)
+                if not obs:
+                    continue
+                for s in range(lo_, hi_ + 1):
+                    if (s, v) in x_cells:
+                        continue
+                    prev = max((o for o in obs if o < s), default=None)
+                    nxt = min((o for o in obs if o > s), default=None)
+                    if method == "next":
+                        val = x_cells[(nxt, v)] if nxt is not None else None
+                    elif method == "previous":
+                        val = x_cells[(prev, v)] if prev is not None else None
+                    elif method == "nearest":
+                        cand = [o for o in (prev, nxt) if o is not None]
+                        o = min(cand, key=lambda o: (abs(o - s), o))
+                        val = x_cells[(o, v)]
+                    elif method == "constant":
+                        val = S.const(Fraction(7, 2))
+                    else:
+                        if prev is None or nxt is None:
+                            val = x_cells[(prev if prev is not None else nxt, v)]       # the code extends the end values
+                        else:
+                            w = Fraction(s - prev, nxt - prev)
+                            a_, b_ = x_cells[(prev, v)], x_cells[(nxt, v)]
+                            if method == "linear":
+                                val = a_ + (b_ - a_) * w
+                            else:
+                                la, lb = S.const(a_).log(), S.const(b_).log()
+                                val = (la + (lb - la) * w).exp()
+                    if val is not None:
+                        c[(s, v)] = val
+            return c
+        for method in ("next", "previous", "nearest", "linear", "log_linear", "constant"):
+            for form in ("function", "method"):
+                def impl(method=method, form=form):
+                    x = X()
+                    args = (Fraction(7, 2),) if method == "constant" else ()
+                    if form == "function":
+                        return ir.fill_missing(x, method, *args)
+                    x.fill_missing(method, *args)
+                    return x
+                out.append((f"fill_missing({method}) {form}", impl, (lambda method=method: fill_oracle(method)), True))
     # --- scalar arithmetic and unary
     for name, f in (("x+2", lambda x: x + 2), ("3-x", lambda x: 3 - x), ("x*c", lambda x: x * S.sym("c0", 2)), ("2/x", lambda x: 2 / x), ("-x", lambda x: -x), ("x**2", lambda x: x ** 2)):
         def impl(f=f):
@@ -326,11 +376,12 @@ def _decide(run, key, finding, case, got_state, exp_cells, check_hull, assume, n
 
 
 def _configs(tier):
-    xs = [Cfg(0, 3), Cfg(0, 4, 2, (1,)), Cfg(0, 0), Cfg(0, 4, 1, (2,)), Cfg(0, 1), Cfg(0, 3, 2, ((0, 1), (2, 0)))]
+    xs = [Cfg(0, 3), Cfg(0, 4, 2, (1,)), Cfg(0, 0), Cfg(0, 4, 1, (2,)), Cfg(0, 1), Cfg(0, 3, 2, ((0, 1), (2, 0))),
+          Cfg(0, 5, 1, (1, 2)), Cfg(0, 6, 2, ((1, 0), (2, 0), (3, 0), (2, 1), (4, 1)))]          # gaps of two and three periods
     ys = [Cfg(-5, 3, prefix="y"), Cfg(-1, 3, prefix="y"), Cfg(0, 2, prefix="y"), Cfg(2, 3, 1, (1,), prefix="y"), Cfg(6, 2, prefix="y"), Cfg(0, 0, prefix="y"),
           Cfg(1, 3, 2, prefix="y")]
     if tier == "quick":
-        return xs[:5], ys[:6]
+        return xs[:5] + xs[6:7], ys[:6]
     return xs, ys
 
 
